@@ -6,11 +6,14 @@ import (
 	"flag"
 	"fmt"
 	"reflect"
+	"sort"
+	"strings"
 	"sync"
 
 	"gqlverif/abs"
 
 	"github.com/graphql-go/graphql"
+	"github.com/graphql-go/graphql/gqlerrors"
 )
 
 // ---- verif hook dispatcher: plan-cache events are logged per cache, in lock order ----
@@ -95,6 +98,20 @@ type c06Step struct {
 type c06Vector struct {
 	Max   int       `json:"max"`
 	Steps []c06Step `json:"steps"`
+}
+
+// c06Locations renders the locations of a list of errors (sorted by message, so that the order of errors is free).
+func c06Locations(errs []gqlerrors.FormattedError) string {
+	var out []string
+	for _, e := range errs {
+		l := ""
+		for _, loc := range e.Locations {
+			l += fmt.Sprintf("%d:%d ", loc.Line, loc.Column)
+		}
+		out = append(out, strings.SplitN(e.Message, "\n", 2)[0]+" @ "+strings.TrimSpace(l))
+	}
+	sort.Strings(out)
+	return strings.Join(out, "; ")
 }
 
 func c06Vars(tag string) map[string]interface{} {
@@ -248,6 +265,7 @@ func runC06History(v *c06Vector, mode string, schemas map[string]*abs.Built, st 
 		return "s?"
 	}
 	lines := []interface{}{map[string]interface{}{"t": "new", "max": v.Max, "mode": mode}}
+	createdBy := map[string]string{} // cache key -> the request text its entry was planned from (store events)
 	for i := range v.Steps {
 		s := &v.Steps[i]
 		detail := func(extra interface{}) interface{} {
@@ -285,16 +303,21 @@ func runC06History(v *c06Vector, mode string, schemas map[string]*abs.Built, st 
 		evs := append([]cacheEvent(nil), cl.evs...)
 		cl.mu.Unlock()
 		obsOut, obsLen := "none", -1
+		creator := s.Text
 		for _, e := range evs {
 			switch e.E {
 			case "lookup":
 				obsOut, obsLen = e.Out, e.Len
+				if t, ok := createdBy[e.Key]; ok && e.Out == "hit" {
+					creator = t
+				}
 				lines = append(lines, map[string]interface{}{"t": "ev", "e": "lookup", "k": keyName(e.Key), "s": schemaName(e.Schema),
 					"out": e.Out, "len": e.Len, "sem": s.Op + "|" + s.Cls})
 			case "evict":
 				lines = append(lines, map[string]interface{}{"t": "ev", "e": "evict", "k": keyName(e.Key)})
 			case "store":
 				obsLen = e.Len
+				createdBy[e.Key] = s.Text
 				lines = append(lines, map[string]interface{}{"t": "ev", "e": "store", "k": keyName(e.Key), "s": schemaName(e.Schema), "len": e.Len})
 			}
 		}
@@ -351,12 +374,35 @@ func runC06History(v *c06Vector, mode string, schemas map[string]*abs.Built, st 
 		vars := c06Vars(s.Vars)
 		rcF := &abs.RunCtx{Built: b, Root: rootObject, RootTag: "r", MutateArgs: true}
 		fresh := runDo(b, s.Text, s.Op, vars, rcF)
+		// ... including WHERE its errors point: into the text of this request
+		sameLocations := func(got []gqlerrors.FormattedError) string {
+			if len(got) == 0 || cache == nil || (mode != "plain" && mode != "normalize") {
+				return ""
+			}
+			own := c06Locations(graphql.Do(graphql.Params{Schema: b.Schema, RequestString: s.Text, OperationName: s.Op,
+				RootObject: rootObject, VariableValues: vars, Context: abs.WithRun(context.Background(), &abs.RunCtx{Built: b, Root: rootObject, RootTag: "r"})}).Errors)
+			if c06Locations(got) == own {
+				return ""
+			}
+			if mode == "normalize" && obsOut == "hit" && creator != s.Text {
+				first := c06Locations(graphql.Do(graphql.Params{Schema: b.Schema, RequestString: creator, OperationName: s.Op,
+					RootObject: rootObject, VariableValues: vars, Context: abs.WithRun(context.Background(), &abs.RunCtx{Built: b, Root: rootObject, RootTag: "r"})}).Errors)
+				if c06Locations(got) == first {
+					st.KnownHit("D_C06_normalized_locations_of_first_text")
+					return ""
+				}
+			}
+			return fmt.Sprintf("[%s] the errors of the response served through the cache are located at %s, the from-scratch response to the same text locates them at %s", mode, c06Locations(got), own)
+		}
 		if len(pr.Errors) > 0 {
 			if pr.Plan != nil {
 				return "PlanResult carries both a plan and errors", detail(nil)
 			}
 			if !(fresh.NoData && len(fresh.Errs) > 0) {
 				return "the cache path refuses the request (" + pr.Errors[0].Message + ") but the from-scratch path answers " + fresh.Data.Canon(), detail(nil)
+			}
+			if why := sameLocations(pr.Errors); why != "" {
+				return why, detail(s.Text)
 			}
 			continue
 		}
@@ -385,6 +431,11 @@ func runC06History(v *c06Vector, mode string, schemas map[string]*abs.Built, st 
 		}
 		if len(cached.Errs) != len(fresh.Errs) {
 			return fmt.Sprintf("errors through the cache %v differ from from-scratch errors %v", cached.Msgs, fresh.Msgs), detail(nil)
+		}
+		if res != nil {
+			if why := sameLocations(res.Errors); why != "" {
+				return why, detail(s.Text)
+			}
 		}
 		if !reflect.DeepEqual(callsKey(cached.Calls), callsKey(fresh.Calls)) {
 			return fmt.Sprintf("resolvers saw different parameters through the cache: %v vs from scratch %v", callsKey(cached.Calls), callsKey(fresh.Calls)), detail(nil)
